@@ -190,6 +190,14 @@ class MHLHistory:
             dir_path = os.path.dirname(dir_path)
         return self, relative_path
 
+    def is_recorded_as_directory(self, file_path: str) -> bool:
+        history, relative_path = self.find_history_for_path(self.get_relative_file_path(file_path))
+        for hash_list in reversed(history.hash_lists):
+            media_hash = hash_list.find_media_hash_for_path(relative_path)
+            if media_hash is not None:
+                return media_hash.is_directory
+        return False
+
     def set_of_file_paths(self) -> Set[str]:
         all_paths = set()
         for hash_list in self.hash_lists:
